@@ -353,6 +353,38 @@ theorem codecs_open_keeps_body (env : Env) (contents : Text) (b : List Text) (l 
     preprocess env contents = (b ++ [l]).map normalise :=
   Lemmas.PoPre.preprocess_body env contents b l hl tail ht hlines
 
+/-! ## history independence -/
+
+/-- **load_sequence_independent.**  Loading a list of files in one process is the list of the single loads: the result for a
+    file does not depend on the files loaded before it (nor on their charsets).  True of the model by construction — its loop
+    threads nothing but the results — which is exactly what a module-level cache in the loader would break; the tie is the
+    `po-load-sequence` stream and the sequence falsifier (files in different charsets sharing textually identical escaped
+    lines, every order, each order in its own process). -/
+theorem load_sequence_independent (env : Env) (files : List Bytes) : loadSeq env files = files.map (checkerLoad env) := by
+  unfold loadSeq
+  suffices h : ∀ acc : List (Except Err PoFile × Bool),
+      files.foldl (fun results file => results ++ [checkerLoad env file]) acc = acc ++ files.map (checkerLoad env) by
+    simpa using h []
+  induction files with
+  | nil => simp
+  | cons f rest ih => intro acc; simp [List.foldl_cons, ih]
+
+/-- whatever was loaded before, and in whatever order, the last file gets the result it gets alone -/
+theorem load_after_any_history (env : Env) (history : List Bytes) (file : Bytes) :
+    (loadSeq env (history ++ [file])).getLast? = some (checkerLoad env file) := by
+  rw [load_sequence_independent]; simp
+
+/-- non-vacuity: the same escaped line `\\xc4\\x85` in a file read as "two-byte" text and in a plain ASCII-declared file:
+    each file gets its own answer in both orders -/
+example :
+    let a := "msgid \"\\xc4\\x85\"\nmsgstr \"\"\n".toList.map fun c => UInt8.ofNat c.toNat
+    let b := "msgid \"x\"\nmsgstr \"\\xc4\\x85\"\n# c\n".toList.map fun c => UInt8.ofNat c.toNat
+    (loadSeq twoByteEnv [a, b]).map (·.2) = [false, false] ∧
+    loadSeq twoByteEnv [a, b] = (loadSeq twoByteEnv [b, a]).reverse := by
+  intro a b
+  rw [load_sequence_independent, load_sequence_independent]
+  exact ⟨by decide, rfl⟩
+
 /-- `translated()` as patched: not obsolete, not fuzzy, and `msgstr` or some plural form non-empty -/
 theorem translated_iff (e : Entry) :
     translated e = true ↔
